@@ -9,7 +9,7 @@ import os
 import shutil
 import sys
 
-SRC = "/repo"
+SRC = os.environ.get("XV_REPO") or "/repo"
 NEG = {ast.Is: ast.IsNot, ast.IsNot: ast.Is, ast.Eq: ast.NotEq, ast.NotEq: ast.Eq, ast.In: ast.NotIn, ast.NotIn: ast.In, ast.Lt: ast.GtE, ast.GtE: ast.Lt, ast.Gt: ast.LtE, ast.LtE: ast.Gt}
 
 
@@ -64,4 +64,5 @@ def main():
     print(f"swapped {Swap.n} if/else and conditional expressions")
 
 
-main()
+if __name__ == "__main__":
+    main()
